@@ -200,6 +200,39 @@ def execute(acc, g, case):
                     acc.counters["fallbacks_judged"] += 1
                 else:
                     acc.counters["answers_judged"] += 1
+        # a handler registered *again* for a pair that has already served requests (the application swaps an implementation at
+        # run time): the handler registered for the pair is now the new one, and only that one runs
+        for key, rt in sorted(routes.items())[:3]:
+            def newer(request, key=key, rt=rt):
+                calls.append(("re-registered",) + key)
+                a = DiameterAnswer(command_code=rt["code"], application_id=rt["app_id"])
+                a.append(SessionIdAVP(b"handler;2;2"))
+                a.append(ResultCodeAVP(2002))
+                a.append(OriginHostAVP(appnode.LOCAL_HOST))
+                a.append(OriginRealmAVP(appnode.LOCAL_REALM))
+                return a
+            newer.__name__ = "route2_%s_%s" % key
+            app.route(application_id=rt["app_id"], command_code=rt["code"])(newer)
+            try:
+                request = msggen.make_plan(g, rt["lib"], rt["cls"], subset="none", session_id=b"peer.remote.example;9;9").build()
+            except BaseException:
+                continue
+            outcome_for[0] = lambda req, key: None
+            del calls[:]
+            before = len(h.sent())
+            thr = app.create_message_thread(request)
+            sched.run_until(lambda: thr.done, 10.0, "dispatch-after-re-registration")
+            sched.run_until(lambda: False, 0.01, "drain")
+            acc.counters["dispatches_after_re_registration"] += 1
+            acc.evaluations += 1
+            if calls != [("re-registered",) + key]:
+                acc.violation("wrong-handler-dispatched:after-re-registration", "handlers %s ran for a request whose pair %s was registered again with another handler" % (calls, key),
+                              dict(wit, route=list(key)))
+                return
+            new = [m for _, m in h.sent()[before:]]
+            if request.has_avp("session_id_avp") and len(new) != 1:
+                acc.violation("request-answered-%d-times:after-re-registration" % len(new), "%d messages for one request after re-registration of %s" % (len(new), key), dict(wit, route=list(key)))
+                return
         # a request for a command nobody registered under a served application: the statement presupposes a registered
         # handler, so what the library does here (nothing reaches the peer) is recorded, not judged
         if routes:
@@ -373,7 +406,7 @@ def main(tier, seed):
                           ["workers are in-process (fake manager, never started as processes); the connection layer below a Worker is a recording stub",
                            "requests without Session-Id or origin AVPs are dispatched and observed, not judged (the fallback cannot be built for them)",
                            "a handler raising one of the library's BaseException-derived errors is outside the statement's 'standard exception' and is not generated"],
-                          t0, require_counters=("dispatches", "fallbacks_judged", "answers_judged", "real_loopback_ok", "concurrent_dispatch_executions", "dispatch_thread_parked"))
+                          t0, require_counters=("dispatches", "dispatches_after_re_registration", "fallbacks_judged", "answers_judged", "real_loopback_ok", "concurrent_dispatch_executions", "dispatch_thread_parked"))
 
 
 def replay(w):
